@@ -707,7 +707,9 @@ var markFuncs = []struct {
 		return []cty.Value{cty.NullVal(cty.String), cty.StringVal(gv.GenStr(r)), cty.StringVal("z")}
 	}},
 	{"add", stdlib.AddFunc, func(r *rng.R) []cty.Value { return []cty.Value{gv.GenSmallNum(r), gv.GenSmallNum(r)} }},
-	{"jsonencode", stdlib.JSONEncodeFunc, func(r *rng.R) []cty.Value { return []cty.Value{gv.Gen(r, collTypes[r.Intn(len(collTypes))], gv.KnownCfg, 2)} }},
+	{"jsonencode", stdlib.JSONEncodeFunc, func(r *rng.R) []cty.Value {
+		return []cty.Value{gv.Gen(r, collTypes[r.Intn(len(collTypes))], gv.KnownCfg, 2)}
+	}},
 	{"merge", stdlib.MergeFunc, func(r *rng.R) []cty.Value {
 		return []cty.Value{gv.Gen(r, collTypes[2], gv.KnownCfg, 1), gv.Gen(r, collTypes[2], gv.KnownCfg, 1)}
 	}},
